@@ -185,6 +185,44 @@ def run_closure(ex, env, fval, args):
     return out
 
 
+def run_closure_forks(ex, env, fval, args):
+    """like run_closure, but nothing is merged into env: every path of the closure comes back with ITS OWN bookkeeping state
+    -> [(condition, return value, environment patch)], directly usable as the answer of a call model"""
+    f = fval
+    for _ in range(4):
+        if f.startswith("(ref "):
+            f = mk_deref(f)
+        elif is_addr(f):
+            f = ex.load(env, f)
+        else:
+            break
+    head = f.lstrip("(").split(" ")[0].rstrip(")")
+    src = ex.closure_src.get(head)
+    if src is None:
+        for s_ in ex._closures():
+            if "k_" + sanitize("ZeroSized: " + s_)[:80] == head:
+                src = s_
+                break
+    if src is None:
+        raise Inconclusive("closure value not recognised: %s" % f[:80])
+    body, byref = ex.closure_body(src)
+    sub_env = {k: v2 for k, v2 in env.items() if k.startswith("__")}
+    a1 = ("(ref %s)" % f) if byref else f
+    for i, v2 in enumerate([a1] + list(args)):
+        sub_env["_%d" % (i + 1)] = v2
+    sub = []
+    ex.inlined.add(body.name)
+    ex._walk(body, "bb0", sub_env, [], [], sub, 1)
+    out = []
+    for pc2, ret2, calls2, env2 in sub:
+        patch = {k: v for k, v in env2.items() if k.startswith("__")}
+        if ret2 == "PANIC":
+            out.append((conj(pc2), "PANICVAL", patch))
+        else:
+            out.append((conj(pc2), ret2, patch))
+    return out
+
+
 def conj(conds):
     return "(and true %s)" % " ".join(conds) if conds else "true"
 
